@@ -2,10 +2,10 @@ import ComposeVerif.Lemmas.NameExamples
 /-!
 # C17 — boundaries of the property, proved on concrete witnesses
 
-The property speaks about "every option order the API documents".  Two stronger readings are *false* for the
+The property speaks about "every option order the API documents".  Three stronger readings are *false* for the
 code that exists; they are recorded here (and replayed on the real code from `corpus/C17/`, where the model and
 the implementation agree on them) so that nobody mistakes the proved theorems for the stronger statements.
-Neither is a defect with respect to the property text.
+None is a defect with respect to the property text.
 -/
 namespace CV.Name.Neg
 open CV CV.Name
@@ -25,6 +25,17 @@ theorem os_over_dotenv_in_any_order_is_false :
     earlier lines — `dotenv_refs_above`), although the final value of `X` is 2 -/
 theorem ref_sees_own_file_first_is_false :
     ¬ (varOf "S" (run negW [.withEnvFiles (strs ["a", "b"]), .withDotEnv]) = varOf "X" (run negW [.withEnvFiles (strs ["a", "b"]), .withDotEnv])) := by
+  neg_eval_run
+  decide
+
+/-- the position of `WithEnv` relative to `WithDotEnv` DOES matter (unlike its position relative to `WithOsEnv`,
+    `withEnv_withOsEnv_commute`, and unlike the position of `WithName`, `withName_commutes`): called after
+    `WithDotEnv`, the explicit `X=9` still wins for `X` itself (`explicit_over_all`), but the reference `S=$X` in an
+    env file was already resolved without it (to the earlier file's `X=1`); called before, `S` is `9`.  "`.env` values
+    may reference the variables above them" is a statement about the documented order -/
+theorem withEnv_position_irrelevant_is_false :
+    ¬ (varOf "S" (run negW [.withEnv (strs ["X=9"]), .withEnvFiles (strs ["a", "b"]), .withDotEnv]) =
+       varOf "S" (run negW [.withEnvFiles (strs ["a", "b"]), .withDotEnv, .withEnv (strs ["X=9"])])) := by
   neg_eval_run
   decide
 
